@@ -18,6 +18,8 @@ ASSUMPTIONS = ['invalid retention strings are not generated (the daemon exits on
 
 PATS = ['^carbon\\.', '^servers\\.', '\\.count$', 'cpu', '.*', '^a\\.', 'web[0-9]+', '^$', 'x|y', '^stats', 'mem', '\\.',
         # patterns for tagged series and values containing the characters INI dialects use for comments
+        # patterns that match without consuming a character
+        '^', '$', '^(?!carbon\\.)', '^(?!.*\\.count$)', '\\b', 'x*', '(?=.*cpu)', '',
         ';env=prod(;|$)', ';type=counter', '^app\\..*;dc=', 'x ;y', 'a #b', '#hash', '[;#]', 'cpu ; not a comment']
 RETS = ['60:1440', '10s:6h', '1m:7d', '10s:6h,1m:7d,10m:5y', '1:10', '60s:90d', '1h:2w', '15m:1y', '5m:12h,1h:1w', '30:2d', '7s:3m', '2d:10y', '1w:4w',
         # every suffix on either side of the colon, bare numbers on either side
